@@ -159,7 +159,11 @@ int main (int argc, char **argv) {
 			uses_exit[i] = rnd (&s) % 2;
 			codes[i] = (int) (rnd (&s) % 2 ? -(int) rnd (&s) : (int) rnd (&s) * 65537);
 			slot[i] = 0;
-			th[i] = p_uthread_create (worker, (ppointer) (intptr_t) i, joinable[i], (i & 1) ? "st" : NULL);
+			/* names: none, short, longer than the platform limit (truncated copy made and released inside the proxy);
+			 * every fourth thread goes through p_uthread_create_full with an explicit priority */
+			const pchar *nm = (i % 3 == 1) ? "st" : (i % 3 == 2) ? "a-thread-name-longer-than-the-platform-limit" : NULL;
+			th[i] = (i % 4 == 3) ? p_uthread_create_full (worker, (ppointer) (intptr_t) i, joinable[i], P_UTHREAD_PRIORITY_NORMAL, 0, nm)
+					     : p_uthread_create (worker, (ppointer) (intptr_t) i, joinable[i], nm);
 			if (!th[i]) { fprintf (stderr, "create failed\n"); return 1; }
 			if (!joinable[i]) { if (rnd (&s) % 2) { p_uthread_ref (th[i]); p_uthread_unref (th[i]); } p_uthread_unref (th[i]); th[i] = NULL; }
 		}
